@@ -514,8 +514,8 @@ pub fn gen(seed: u64, count: usize, tier: &str, params: &Params) -> Vec<Value> {
             "axpair" => {
                 // per-axis forms against the whole-array routine per lane on NON-dyadic data (v/3, v/10, v/7) whose lanes sit at very
                 // different magnitudes, >= 2 lanes, any layout: only the agreement of the two routines is judged
-                let nd = rng.range(2, 3) as usize;
-                let shape: Vec<usize> = (0..nd).map(|_| rng.range(2, 4) as usize).collect();
+                let nd = rng.range(2, 4) as usize;
+                let shape: Vec<usize> = (0..nd).map(|_| rng.range(2, if nd == 4 { 3 } else { 4 }) as usize).collect();
                 let n: usize = shape.iter().product();
                 let axis = rng.below(nd as u64) as usize;
                 let (lay1, lay2) = two_lays(&mut rng, &shape);
